@@ -9,7 +9,7 @@
 (* status or offer the plain exact transaction, so that 2/3 agreement, exactly-2/3, one-short    *)
 (* and split votes all occur.                                                                    *)
 EXTENDS EvmAttest, Json
-CONSTANTS Worlds, EKinds, KMax, Signers, SignOrdered, FirstVals, Lean, CorrMode, MaxNew, MaxRounds, MaxOps, EmitAt
+CONSTANTS Worlds, EKinds, KMax, Signers, SignOrdered, FirstVals, Lean, CorrMode, MaxNew, MaxRounds, MaxOps, EmitAt, Jumps, MaxAdv
 VARIABLES hist, ph, theme
 ShareFn == <<3, 1, 1, 1>>
 
@@ -46,8 +46,9 @@ EvArgs(v, m, p) == [v |-> v, m |-> m, t |-> p.t, of |-> p.of, k |-> p.k, corr |-
 P(t, of, k, corr, st, n) == [t |-> t, of |-> of, k |-> k, corr |-> corr, st |-> st, n |-> n, rg |-> 1]
 NoP == [t |-> "", of |-> 0, k |-> 0, corr |-> "", st |-> "", n |-> 0, rg |-> 0]
 \* done: validators that submitted on message m in this round; sc/q: running split-vote script and its variant;
+\* adv: block jumps taken so far (time is invisible in the model state, so it is part of the view);
 \* ord: submission order (the model state has none, the real queue does: it is part of the view)
-Ph0(r) == [r |-> r, s |-> 0, m |-> 0, v |-> 0, c |-> 0, p |-> NoP, done |-> {}, sc |-> <<>>, q |-> NoP, ord |-> <<>>]
+Ph0(r) == [r |-> r, s |-> 0, m |-> 0, v |-> 0, c |-> 0, p |-> NoP, done |-> {}, sc |-> <<>>, q |-> NoP, ord |-> <<>>, adv |-> <<>>]
 Ofs == DOMAIN msgs \cup {key[1] : key \in DOMAIN txs}
 
 GInit == \E w \in Worlds, th \in (IF CorrMode = "theme" THEN 1..12 ELSE {1}) :
@@ -64,14 +65,16 @@ Menu(m) ==
   LET kind == msgs[m].kind
       ks == IF IsUsc(kind) THEN {1} ELSE 0..Len(msgs[m].sigs) IN
      {P("tx", m, k, "none", "ok", 1) : k \in ks}
-  \cup {P("tx", m, 1, "none", "fail", 1), P("tx", m, 1, "none", "ok", 2), P("err", m, 1, "none", "ok", 1)}
+  \cup {P("tx", m, 1, "none", st, 1) : st \in {"fail", "absent", "empty", "bad"}}      \* every receipt component
+  \cup {P("tx", m, 1, "none", "ok", 2), P("err", m, 1, "none", "ok", 1)}
   \cup {P("tx", m, 1, c, "ok", 1) : c \in CorrSet(kind)}
   \cup {P("tx", of, 1, "none", "ok", 1) : of \in Ofs \ {m}}
 \* evidence that differs from p in exactly one component: receipt status, rest of the receipt, transaction
 \* instance (another transaction with the same call data), signature prefix, or an error proof instead
 Variants(m, p) ==
   IF p.t # "tx" THEN {} ELSE
-     {[p EXCEPT !.st = IF @ = "ok" THEN "fail" ELSE "ok"], [p EXCEPT !.rg = 3 - @], [p EXCEPT !.n = 3 - @], P("err", m, 1, "none", "ok", 1)}
+     {[p EXCEPT !.st = x] : x \in {"ok", "fail", "absent", "empty", "bad"} \ {p.st}}
+  \cup {[p EXCEPT !.rg = 3 - @], [p EXCEPT !.n = 3 - @], P("err", m, 1, "none", "ok", 1)}
   \cup (IF p.of = m /\ ~IsUsc(msgs[m].kind) /\ p.corr = "none" /\ Len(msgs[m].sigs) >= 2 THEN {[p EXCEPT !.k = 3 - @]} ELSE {})
 \* what the validators after the first one may do
 Follow(m) == {ph.p, [ph.p EXCEPT !.st = IF @ = "ok" THEN "fail" ELSE "ok"]}
@@ -80,15 +83,17 @@ Follow(m) == {ph.p, [ph.p EXCEPT !.st = IF @ = "ok" THEN "fail" ELSE "ok"]}
 \* basic transactions get every vote pattern, the rest of the menu gets the exactly-2/3 pattern (lean mode)
 Basic(m) == {P("tx", m, 1, "none", "ok", 1)}
             \cup {P("tx", m, 1, c, "ok", 1) : c \in {Nth(SinglesOf(msgs[m].kind), 1)}}
+AfterJump == Lean /\ ph.adv # <<>>
+ReplayMenu(m) == {P("tx", of, 1, "none", "ok", 1) : of \in Ofs}
 GEvidence == \E m \in DOMAIN msgs, v \in Vals :
   /\ ph.sc = <<>>
   /\ ph.s <= 2 /\ (ph.s = 2 => (m > ph.m \/ (m = ph.m /\ (IF Lean THEN v > ph.v ELSE v \notin ph.done))))
   /\ (~(ph.s = 2 /\ m = ph.m) => v \in FirstVals)
   /\ (Lean /\ ph.s = 2 => m = ph.m /\ ph.c < 3)
-  /\ \E p \in (IF ph.s = 2 /\ m = ph.m THEN {q \in Follow(m) : q.t # ""} ELSE Menu(m)) :
+  /\ \E p \in (IF ph.s = 2 /\ m = ph.m THEN {q \in Follow(m) : q.t # ""} ELSE IF AfterJump THEN ReplayMenu(m) ELSE Menu(m)) :
        /\ (p.t = "tx" => CanBuild(p.of, p.k, p.corr))
-       /\ (Lean /\ ph.s < 2 /\ p \notin Basic(m) => v = 1)
-       /\ (Lean /\ ph.s = 2 /\ ph.p \notin Basic(m) => v = 2 /\ ph.c = 1 /\ p = ph.p)
+       /\ (Lean /\ ph.s < 2 /\ (p \notin Basic(m) \/ AfterJump) => v = 1)
+       /\ (Lean /\ ph.s = 2 /\ (ph.p \notin Basic(m) \/ AfterJump) => v = 2 /\ ph.c = 1 /\ p = ph.p)
        /\ Evidence(v, m, p.t, p.of, p.k, p.corr, p.st, p.n, p.rg)
        /\ H("Evidence", EvArgs(v, m, p))
        /\ ph' = [ph EXCEPT !.s = 2, !.m = m, !.v = v, !.c = IF ph.s = 2 /\ m = ph.m THEN @ + 1 ELSE 1, !.p = IF ph.s = 2 /\ m = ph.m THEN @ ELSE p,
@@ -112,7 +117,7 @@ ScriptStep(m, sc, b, q, start) ==
   /\ ph' = [ph EXCEPT !.s = 2, !.m = m, !.v = 4, !.c = 4, !.p = b, !.q = q, !.sc = Tail(sc), !.done = Vals, !.ord = IF start THEN <<v>> ELSE Append(@, v)]
 GSplit ==
   /\ UNCHANGED theme
-  /\ \/ /\ ph.sc = <<>> /\ ph.s <= 1
+  /\ \/ /\ ph.sc = <<>> /\ ph.s <= 1 /\ ~AfterJump
         /\ \E m \in DOMAIN msgs, sc \in Scripts : \E b \in SplitBases(m) : \E q \in Variants(m, b) :
              /\ CanBuild(m, 1, "none")
              /\ (Lean => Len(msgs[m].sigs) = (IF IsUsc(msgs[m].kind) THEN 0 ELSE 1))
@@ -128,9 +133,16 @@ GEvidenceBad ==
      \/ \E m \in DOMAIN msgs : Evidence(1, m, "tx", nextId, 1, "none", "ok", 1, 1) /\ H("Evidence", EvArgs(1, m, P("tx", nextId, 1, "none", "ok", 1)))
   /\ ph' = [ph EXCEPT !.s = 1] /\ UNCHANGED theme
 
-GEndBlock == ph.sc = <<>> /\ ph.r <= MaxRounds /\ EndBlock /\ H("EndBlock", [x |-> 0]) /\ ph' = [Ph0(ph.r + 1) EXCEPT !.ord = ph.ord] /\ UNCHANGED theme
+\* time passes at the start of a round: between an attestation (in this history or while the world was prepared)
+\* and whatever is submitted later, in particular the SAME transaction for a later message with identical call data
+GAdvance == \E d \in Jumps :
+  /\ ph.s = 0 /\ Len(ph.adv) < MaxAdv /\ hist[Len(hist)].act # "Advance"
+  /\ (Lean => processed # {})
+  /\ Advance(d) /\ H("Advance", [d |-> d]) /\ ph' = [ph EXCEPT !.adv = Append(@, d)] /\ UNCHANGED theme
 
-GNext == ph.r <= MaxRounds /\ (GEnqueue \/ GSign \/ GEvidence \/ GSplit \/ GEvidenceBad \/ GEndBlock)
+GEndBlock == ph.sc = <<>> /\ ph.r <= MaxRounds /\ EndBlock /\ H("EndBlock", [x |-> 0]) /\ ph' = [Ph0(ph.r + 1) EXCEPT !.ord = ph.ord, !.adv = ph.adv] /\ UNCHANGED theme
+
+GNext == ph.r <= MaxRounds /\ (GEnqueue \/ GSign \/ GEvidence \/ GSplit \/ GEvidenceBad \/ GAdvance \/ GEndBlock)
 
 Last == hist[Len(hist)]
 \* the incoming action is part of the view, so that rejected / no-op steps get a history of their own
